@@ -80,6 +80,8 @@ type GenesisOpts struct {
 	AbsGen      M                 `json:"absgen"`    // an abstract genesis value of spec/GenesisMC.tla for the three custom modules
 	PrevRelease bool              `json:"prev"`      // SDK-module state as the previous release's upgrade handler (v2.2.0) left it: staking MinCommissionRate = 3% while
 	                                                 // validators created before that still have lower rates (and max rates / change rates that forbid raising them)
+	SimFirst    bool              `json:"simfirst"`  // every delivered transaction is first simulated (gas estimation), as clients do
+	OldReads    bool              `json:"oldreads"`  // before the views of a step are taken, the same point queries are served at the previous committed height
 	Upper       []string          `json:"upper"`     // accounts whose address is spelled in upper case in custom-module message fields
 	Bulk        int               `json:"bulk"`      // this many filler entries in the DID registry (genesis), sorting before every DID of the dictionary
 	Gov         bool              `json:"gov"`       // short governance voting period, 1umed deposit, and a funded (untracked) proposer account
